@@ -20,6 +20,10 @@ Monitors
       nm_to_<map>.*               for every valid (n, m), n <= N: nm_to_x(n, m) == integer reference and x_to_nm undoes it
       probe.*                     the same per-index clauses on isolated large indices (block edges k(k+1)/2, k^2, +-1,
                                   2^e +- 1, random) up to 2^31 - 1
+      forms.*                     class E (argument-form equivalence): the same clauses with the index / the (n, m) pair handed
+                                  over as numpy.uint32 / uint64 / int32 / int64 scalars, 0-d integer arrays (signed and unsigned)
+                                  and mixed pairs, for every map and both inverses; the set of in-domain forms is the table
+                                  FORM_DOMAIN below (fixed from the tree as it is now); keys `C11/<fn>/form:idx=<class>/...`
 """
 from math import isqrt
 
@@ -37,14 +41,18 @@ RULE = ('every index from the first one up to the end of the first complete bloc
         '(n,m)->j sweep, one isolated large-index probe, one per-map call-order sequence (descending, boundary hops, random) '
         'or one INTERLEAVED sequence over the four maps and the two inverses (same index through all maps, round trips '
         'through the inverses between forward calls, block-boundary hops alternating between maps, random mixes, the '
-        'configuration switched 64 -> 32 -> 64 inside the sequence, the same numpy index object re-used); `evaluations` '
+        'configuration switched 64 -> 32 -> 64 inside the sequence, the same numpy index object re-used, every call in another '
+        'argument form); ARGUMENT FORMS (class E): every complete block below index 2600 (thorough 40000), every valid (n, m) and '
+        'isolated large indices once more with the index / pair as numpy.uint32 / uint64 / int32 / int64 scalars, signed and '
+        'unsigned 0-d arrays and mixed pairs (table FORM_DOMAIN; 32-bit containers up to 2^27); `evaluations` '
         'counts the individual indices evaluated inside the blocks, `distinct_nontrivial` counts distinct case descriptors '
         '(a lower bound on distinct inputs: per-index counts are in monitor_evaluations); every index is non-trivial')
 ASSUMPTIONS = ['the integer-only reference maps are the conventions (they reproduce the published first terms and are '
                'proved mutual inverses / complete by enumeration at start-up; Python int arithmetic and math.isqrt are exact)',
-               'indices are Python int or signed numpy integers (int64, intp, int32, int16 where 8 j + 1 fits the container); '
-               'unsigned and floating-point index types are outside the workload (the published formulas need signed '
-               'intermediate values)',
+               'indices are Python int, signed numpy integers (int64, intp, int32, int16 where 8 j + 1 fits the container), numpy.uint32 / '
+               'uint64 scalars and 0-d integer arrays (the forms the maps accept today and treat as the same index: table FORM_DOMAIN, '
+               'established by sweeping every form on the current tree); noll_to_nm raises for unsigned indices on that tree (excluded, '
+               'counted); 8 / 16-bit unsigned and floating-point index types are outside the domain',
                'isolated probes above 2^31-1 are explored but never decide (float64 sqrt frontier is outside the stated quantifier)']
 REQUIRED = ['noll_to_nm.valid-order', 'fringe_to_nm.valid-order', 'ansi_j_to_nm.valid-order', 'xy_j_to_mn.valid-order',
             'noll.block-rule', 'ansi.block-rule', 'fringe.block-rule', 'xy.block-rule',
@@ -54,7 +62,7 @@ REQUIRED = ['noll_to_nm.valid-order', 'fringe_to_nm.valid-order', 'ansi_j_to_nm.
             'nm_to_fringe.eq-integer-reference', 'nm_to_ansi_j.eq-integer-reference', 'nm_to_fringe.inverse', 'nm_to_ansi_j.inverse',
             'probe.noll', 'probe.ansi', 'probe.fringe', 'probe.xy',
             'order.noll', 'order.ansi', 'order.fringe', 'order.xy', 'interleaved.forward', 'interleaved.inverse',
-            'precision32.sweep', 'narrow-int.sweep']
+            'precision32.sweep', 'narrow-int.sweep', 'forms.forward', 'forms.inverse', 'forms.probe']
 
 CTX = None
 _INVALID = [False]     # set by a contract when the call just made returned an invalid image
@@ -66,9 +74,76 @@ def _as_int(v):
         return None
     if isinstance(v, (int, np.integer)):
         return int(v)
+    if isinstance(v, np.ndarray) and v.ndim == 0 and v.dtype.kind in 'iu':
+        return int(v)
     if isinstance(v, (float, np.floating)) and np.isfinite(v) and float(v) == int(v):
         return int(v)
     return None
+
+
+# ------------------------------------------------------------------------------------------ argument forms (class E)
+# Which forms of an index (forward maps) or of an (n, m) pair (inverses) are in the domain.  Established on the tree
+# /repo@faa8443 (numpy 2.5) by sweeping j = first .. 3000 and every valid (n, m), n < 300, plus n up to 1e5, in each form and
+# comparing with the python-int result:
+#   * python int, numpy.int32 / int64 / intp scalars, signed 0-d integer arrays: same images for all four maps and both inverses;
+#   * numpy.uint32 / uint64 scalars and unsigned 0-d arrays: same images for fringe_to_nm, xy_j_to_mn, nm_to_fringe, nm_to_ansi_j
+#     (m >= 0; a negative m travels as the signed type of the same width, which numpy promotes); noll_to_nm RAISES IndexError for
+#     every unsigned index >= 2 (`ms[idx - nseries - 1]` relies on a negative list index) -> out of domain, excluded and counted;
+#     ansi_j_to_nm returns m = 2 j - n (n + 2) in the unsigned type, i.e. 2^w - |m| for every sine term: accepted, not
+#     documented as unsupported, and wrong -> in the domain, a finding of the current tree (ledger key below);
+#   * 32-bit containers: only while the library's own arithmetic fits (8 j + 9 < 2^31, n (n + 2) + |m| < 2^31), as ruled for int32;
+#   * 8 / 16-bit integers and floating-point indices stay out of the domain (ruled earlier).
+FORM_LIMIT_32 = 2 ** 27                       # largest index handed over in a 32-bit container
+FORM_NOLL_UNSIGNED = 'noll_to_nm: unsigned index (raises IndexError on the reference tree: outside the domain)'
+
+
+def _u(dt):
+    return lambda v: dt(v)
+
+
+def _a(dt):
+    return lambda v: np.array(v, dtype=dt)
+
+
+def _pair(un, sg):
+    """(n, m) in an unsigned form: m < 0 cannot be unsigned, it travels as the signed type of the same width."""
+    return lambda n, m: (un(n), un(m)) if m >= 0 else (un(n), sg(m))
+
+
+# label -> (index constructor, (n, m) constructor, form class used in violation keys, 32-bit?)
+FORMS = {
+    'uint64': (_u(np.uint64), _pair(_u(np.uint64), _u(np.int64)), 'unsigned', False),
+    'uint32': (_u(np.uint32), _pair(_u(np.uint32), _u(np.int32)), 'unsigned', True),
+    '0d-uint64': (_a(np.uint64), _pair(_a(np.uint64), _a(np.int64)), 'unsigned', False),
+    '0d-uint32': (_a(np.uint32), _pair(_a(np.uint32), _a(np.int32)), 'unsigned', True),
+    '0d-int64': (_a(np.int64), lambda n, m: (np.array(n, dtype=np.int64), np.array(m, dtype=np.int64)), '0d-array', False),
+    '0d-int32': (_a(np.int32), lambda n, m: (np.array(n, dtype=np.int32), np.array(m, dtype=np.int32)), '0d-array', True),
+    'int64': (_u(np.int64), lambda n, m: (np.int64(n), np.int64(m)), 'numpy-int', False),
+    'int32': (_u(np.int32), lambda n, m: (np.int32(n), np.int32(m)), 'numpy-int', True),
+    'int/0d-int64': (int, lambda n, m: (int(n), np.array(m, dtype=np.int64)), 'mixed', False),
+    'int32/int64': (_u(np.int32), lambda n, m: (np.int32(n), np.int64(m)), 'mixed', True),
+}
+FORM_DOMAIN = {name: [f for f in FORMS if not (name == 'noll' and FORMS[f][2] == 'unsigned')] for name in ('noll', 'ansi', 'fringe', 'xy')}
+
+
+def form_class(v):
+    """'' for the canonical forms (python int, signed numpy integer scalar), else the class label of the form; None when the
+    form is outside the domain (8 / 16-bit unsigned, non-integers)."""
+    if isinstance(v, (bool, np.bool_)):
+        return None
+    if isinstance(v, int) or isinstance(v, np.signedinteger):
+        return ''
+    if isinstance(v, np.unsignedinteger):
+        return 'unsigned' if v.dtype.itemsize >= 4 else None
+    if isinstance(v, np.ndarray) and v.ndim == 0 and v.dtype.kind in 'iu':
+        if v.dtype.itemsize < 4 and v.dtype.kind == 'u':
+            return None
+        return 'unsigned' if v.dtype.kind == 'u' else '0d-array'
+    return ''
+
+
+def _fk(cls):
+    return f'form:idx={cls}/' if cls else ''
 
 
 # ------------------------------------------------------------------------------------------ contracts
@@ -78,8 +153,12 @@ def _post_zernike(fn):
     def post(token, args, kwargs, result):
         j = args[0] if args else kwargs.get('idx')
         ji = _as_int(j)
-        if ji is None or ji < first:
-            CTX.skip(f'{fn}: index below the first index of the convention / not an integer (outside the domain)')
+        fc = form_class(j)
+        if ji is None or ji < first or fc is None:
+            CTX.skip(f'{fn}: index below the first index of the convention / not an integer / 8-16 bit unsigned (outside the domain)')
+            return
+        if fn == 'noll_to_nm' and fc == 'unsigned':
+            CTX.skip(FORM_NOLL_UNSIGNED)
             return
         CTX.observe(fn + '.valid-order')
         ok = isinstance(result, tuple) and len(result) == 2
@@ -89,15 +168,21 @@ def _post_zernike(fn):
             ok = n is not None and m is not None and ii.valid_nm(n, m)
         if not ok:
             _INVALID[0] = True
-            CTX.violation(f'C11/{fn}/invalid-order', f'{fn}(j) is not a valid Zernike order (integers, n >= |m|, n-|m| even)',
-                          {'fn': fn, 'j': int(j), 'class': 'contract'}, got=repr(result))
+            CTX.violation(f'C11/{fn}/{_fk(fc)}invalid-order', f'{fn}(j) is not a valid Zernike order (integers, n >= |m|, n-|m| even)'
+                          + (f' for an index handed over as {type(j).__name__} ({fc})' if fc else ''),
+                          {'fn': fn, 'j': int(j), 'type': _tname(j), 'class': 'contract'}, got=repr(result))
     return post
+
+
+def _tname(v):
+    return f'0-d {v.dtype}' if isinstance(v, np.ndarray) else type(v).__name__
 
 
 def _post_xy(token, args, kwargs, result):
     j = args[0] if args else kwargs.get('j')
-    if _as_int(j) is None or _as_int(j) < 1:
-        CTX.skip('xy_j_to_mn: index below 1 / not an integer (outside the domain)')
+    fc = form_class(j)
+    if _as_int(j) is None or _as_int(j) < 1 or fc is None:
+        CTX.skip('xy_j_to_mn: index below 1 / not an integer / 8-16 bit unsigned (outside the domain)')
         return
     CTX.observe('xy_j_to_mn.valid-order')
     ok = isinstance(result, tuple) and len(result) == 2
@@ -106,23 +191,24 @@ def _post_xy(token, args, kwargs, result):
         ok = a is not None and b is not None and ii.valid_xy(a, b)
     if not ok:
         _INVALID[0] = True
-        CTX.violation('C11/xy_j_to_mn/invalid-order', 'xy_j_to_mn(j) is not a pair of non-negative integer exponents',
-                      {'fn': 'xy_j_to_mn', 'j': int(j), 'class': 'contract'}, got=repr(result))
+        CTX.violation(f'C11/xy_j_to_mn/{_fk(fc)}invalid-order', 'xy_j_to_mn(j) is not a pair of non-negative integer exponents',
+                      {'fn': 'xy_j_to_mn', 'j': int(j), 'type': _tname(j), 'class': 'contract'}, got=repr(result))
 
 
 def _post_inverse(fn, first):
     def post(token, args, kwargs, result):
         a = list(args) + [kwargs[k] for k in ('n', 'm') if k in kwargs]
         n_, m_ = (_as_int(a[0]), _as_int(a[1])) if len(a) >= 2 else (None, None)
-        if n_ is None or m_ is None or not ii.valid_nm(n_, m_):
+        if n_ is None or m_ is None or not ii.valid_nm(n_, m_) or form_class(a[0]) is None or form_class(a[1]) is None:
             CTX.skip(f'{fn}: (n, m) is not a valid Zernike order (outside the domain)')
             return
         CTX.observe(fn + '.valid-index')
         j = _as_int(result)
         if j is None or j < first:
             _INVALID[0] = True
-            CTX.violation(f'C11/{fn}/invalid-index', f'{fn}(n, m) is not an integer index >= {first}',
-                          {'fn': fn, 'nm': [int(a) for a in args[:2]], 'class': 'contract'}, got=repr(result))
+            fc = form_class(a[0]) or form_class(a[1])
+            CTX.violation(f'C11/{fn}/{_fk(fc).replace("idx=", "nm=")}invalid-index', f'{fn}(n, m) is not an integer index >= {first}',
+                          {'fn': fn, 'nm': [n_, m_], 'types': [_tname(a[0]), _tname(a[1])], 'class': 'contract'}, got=repr(result))
     return post
 
 
@@ -186,22 +272,24 @@ def _rule_clause(name, j, im, prev):
 RULE_MONITOR = {'noll': 'noll.parity-rule', 'ansi': 'ansi.formula', 'fringe': 'fringe.formula', 'xy': 'xy.order-rule'}
 
 
-def _eval(ctx, name, T, j, jarg, suffix, desc):
-    """Evaluate one index.  Returns the image as a tuple of ints, or None when the call failed / was invalid."""
+def _eval(ctx, name, T, j, jarg, suffix, desc, form=''):
+    """Evaluate one index.  Returns the image as a tuple of ints, or None when the call failed / was invalid.
+    `form`: key part 'form:idx=<class>/' when the index is handed over in a non-canonical form."""
     fn = T['fn']
     _INVALID[0] = False
     try:
         res = T['fwd'](jarg)
     except Exception as e:  # in-domain index: any exception is a violation
-        ctx.violation(f'C11/{fn}/raises:{type(e).__name__}{suffix}', f'{fn}(j) raises {type(e).__name__}: {str(e)[:120]}', desc, j=j)
+        ctx.violation(f'C11/{fn}/{form}raises:{type(e).__name__}{suffix}', f'{fn}(j) raises {type(e).__name__}: {str(e)[:120]}', desc, j=j)
         return None
     if _INVALID[0]:
         return None     # already reported by the contract
     return (_as_int(res[0]), _as_int(res[1]))
 
 
-def _check_index(ctx, name, T, j, jarg, im, prev, b, suffix, desc, jtype):
-    """All per-index clauses; reports at most one violation (first failing clause in a fixed priority)."""
+def _check_index(ctx, name, T, j, jarg, im, prev, b, suffix, desc, jtype, form='', mk_nm=None):
+    """All per-index clauses; reports at most one violation (first failing clause in a fixed priority).
+    `mk_nm(n, m)`: the arguments of the inverse in the form of the case (default: jtype(n), jtype(m))."""
     fn = T['fn']
     failing = []
     ctx.observe(f'{name}.block-rule')
@@ -215,7 +303,7 @@ def _check_index(ctx, name, T, j, jarg, im, prev, b, suffix, desc, jtype):
         ctx.observe(f'{name}.inverse')
         _INVALID[0] = False
         try:
-            back = _as_int(T['inv'](jtype(im[0]), jtype(im[1])))
+            back = _as_int(T['inv'](*(mk_nm(im[0], im[1]) if mk_nm is not None else (jtype(im[0]), jtype(im[1])))))
             if not _INVALID[0] and back != j:
                 failing.append(('inverse', f'inverse map does not undo {fn}: inv(fwd(j)) != j'))
         except Exception as e:
@@ -225,7 +313,7 @@ def _check_index(ctx, name, T, j, jarg, im, prev, b, suffix, desc, jtype):
     if im != ref:
         failing.append(('ne-integer-reference', f'{fn}(j) differs from the integer-only reference map'))
     if failing:
-        ctx.violation(f'C11/{fn}/{failing[0][0]}{suffix}', failing[0][1], desc, j=j, got=list(im), ref=list(ref),
+        ctx.violation(f'C11/{fn}/{form}{failing[0][0]}{suffix}', failing[0][1], desc, j=j, got=list(im), ref=list(ref),
                       all_failing=[f[0] for f in failing])
         return False
     return True
@@ -313,6 +401,10 @@ def _run(ctx):
                                   desc, missing=sorted(missing)[:4])
     ctx.note('exhaustive_index_ranges', swept)
 
+    # --- 1b. class E: the same sweeps / probes with the index in every in-domain argument form --------------------
+    foreign_traffic(ctx)           # class F: the other consumers of the index maps and of the shared helpers first
+    index_forms(ctx, tables)
+
     # --- 2. (n, m) -> j -> (n, m) for every valid order up to N ----------------------------------------------
     from prysm import polynomials as P
     N = ctx.pick(600, 2000)
@@ -320,37 +412,49 @@ def _run(ctx):
         if not ctx.mine(n):
             continue
         jtype = np.int64 if n % 5 == 0 else int
-        desc = {'wl': 'nm->j', 'n': n, 'type': jtype.__name__, 'class': f'nm->j:{jtype.__name__}'}
-        ctx.case(desc)
-        ctx.evaluations += n
-        for m in range(-n, n + 1, 2):
-            for fn, inv, ref, back in (('nm_to_fringe', P.nm_to_fringe, ii.nm_to_fringe, P.fringe_to_nm),
-                                       ('nm_to_ansi_j', P.nm_to_ansi_j, ii.nm_to_ansi, P.ansi_j_to_nm)):
-                _INVALID[0] = False
-                try:
-                    j = inv(jtype(n), jtype(m))
-                except Exception as e:
-                    ctx.violation(f'C11/{fn}/raises:{type(e).__name__}', f'{fn}(n, m) raises {type(e).__name__}: {str(e)[:120]}', desc, nm=[n, m])
-                    continue
-                if _INVALID[0]:
-                    continue
-                j = _as_int(j)
-                ctx.observe(fn + '.eq-integer-reference')
-                if j != ref(n, m):
-                    ctx.violation(f'C11/{fn}/ne-integer-reference', f'{fn}(n, m) differs from the published formula (integer arithmetic)',
-                                  desc, nm=[n, m], got=j, ref=ref(n, m))
-                    continue
-                ctx.observe(fn + '.inverse')
-                _INVALID[0] = False
-                try:
-                    nm = back(j)
-                except Exception as e:
-                    ctx.violation(f'C11/{fn}/roundtrip-raises:{type(e).__name__}', f'{back.__name__}({fn}(n, m)) raises', desc, nm=[n, m], j=j)
-                    continue
-                if _INVALID[0]:
-                    continue
-                if (_as_int(nm[0]), _as_int(nm[1])) != (n, m):
-                    ctx.violation(f'C11/{fn}/roundtrip', f'{back.__name__}({fn}(n, m)) != (n, m)', desc, nm=[n, m], j=j, got=repr(nm))
+        # class E: every in-domain form of the (n, m) pair for the first orders, one rotating form for every order after them
+        fnames = list(FORMS)
+        extra = fnames if n < 40 else [fnames[(n // 3) % len(fnames)]] if n % 3 == 1 else []
+        for flabel in [None] + extra:
+            if flabel is None:
+                mk, fkey, tn = (lambda n_, m_: (jtype(n_), jtype(m_))), '', jtype.__name__
+            else:
+                mk, fkey, tn = FORMS[flabel][1], f'form:nm={FORMS[flabel][2]}/', flabel
+            desc = {'wl': 'nm->j', 'n': n, 'type': tn, 'class': f'nm->j:{tn}'}
+            ctx.case(desc)
+            ctx.evaluations += n
+            for m in range(-n, n + 1, 2):
+                for fn, inv, ref, back in (('nm_to_fringe', P.nm_to_fringe, ii.nm_to_fringe, P.fringe_to_nm),
+                                           ('nm_to_ansi_j', P.nm_to_ansi_j, ii.nm_to_ansi, P.ansi_j_to_nm)):
+                    _INVALID[0] = False
+                    if flabel is not None:
+                        ctx.observe('forms.inverse')
+                    try:
+                        j = inv(*mk(n, m))
+                    except Exception as e:
+                        ctx.violation(f'C11/{fn}/{fkey}raises:{type(e).__name__}', f'{fn}(n, m) raises {type(e).__name__}: {str(e)[:120]}', desc, nm=[n, m])
+                        continue
+                    if _INVALID[0]:
+                        continue
+                    j = _as_int(j)
+                    ctx.observe(fn + '.eq-integer-reference')
+                    if j != ref(n, m):
+                        ctx.violation(f'C11/{fn}/{fkey}ne-integer-reference', f'{fn}(n, m) differs from the published formula (integer arithmetic)',
+                                      desc, nm=[n, m], got=j, ref=ref(n, m))
+                        continue
+                    if flabel is not None:
+                        continue          # the way back is a forward map: its forms are swept in index_forms
+                    ctx.observe(fn + '.inverse')
+                    _INVALID[0] = False
+                    try:
+                        nm = back(j)
+                    except Exception as e:
+                        ctx.violation(f'C11/{fn}/roundtrip-raises:{type(e).__name__}', f'{back.__name__}({fn}(n, m)) raises', desc, nm=[n, m], j=j)
+                        continue
+                    if _INVALID[0]:
+                        continue
+                    if (_as_int(nm[0]), _as_int(nm[1])) != (n, m):
+                        ctx.violation(f'C11/{fn}/roundtrip', f'{back.__name__}({fn}(n, m)) != (n, m)', desc, nm=[n, m], j=j, got=repr(nm))
     ctx.note('nm_exhaustive', f'every valid (n, m) with n <= {N}')
 
     # --- 3. isolated large-index probes (deciding up to 2^31 - 1) -------------------------------------------
@@ -491,10 +595,129 @@ def _run(ctx):
     ctx.exhaustive = True
 
 
-def _merge_suffix(ctx, sfx):
+def foreign_traffic(ctx):
+    """Class F prelude: the public routines that *consume* the index maps or share helpers with them (polynomial evaluation by
+    (n, m) / (m, n) lists, names, magnitude-angle conversion, Interferogram.pvr's Fringe fit), with hostile arguments (single
+    precision, large and unsorted orders, numpy index types).  Nothing here is judged; whatever it leaves behind in module
+    state is met by the index workloads that follow.  A failure of a foreign routine is only counted."""
+    from prysm import polynomials as P
+    from prysm.coordinates import make_xy_grid, cart_to_polar
+    from prysm.interferogram import Interferogram
+    rng = ctx.rng('c11-foreign')
+    with quiet():
+        for prec in (32, 64):
+            with precision(prec):
+                try:
+                    x, y = make_xy_grid(24, diameter=2)
+                    r, t = cart_to_polar(x, y)
+                    js = [int(j) for j in rng.integers(1, 300, 24)]
+                    P.zernike_nm_seq([P.noll_to_nm(j) for j in sorted(js, reverse=True)], r, t)
+                    P.zernike_nm_seq([P.fringe_to_nm(np.int64(j)) for j in js], r, t, norm=False)
+                    P.zernike_nm_der_seq([P.ansi_j_to_nm(j) for j in js[:6]], r, t)
+                    P.xy_seq([P.xy_j_to_mn(j) for j in js], x, y)
+                    for j in js[:8]:
+                        P.nm_to_name(*P.noll_to_nm(j))
+                    P.zernikes_to_magnitude_angle([(*P.fringe_to_nm(j), float(j)) for j in range(1, 37)])
+                    P.zernikes_to_magnitude_angle_nmkey([(*P.ansi_j_to_nm(j), 1.0) for j in range(0, 21)])
+                    Interferogram(rng.standard_normal((24, 24)), dx=0.1).pvr()
+                    ctx.event('foreign-traffic prelude completed')
+                except Exception as e:  # noqa  (not a routine of this property)
+                    ctx.event(f'foreign-traffic prelude: {type(e).__name__} (not judged)')
+
+
+def index_forms(ctx, tables):
+    """Class E.  Every in-domain argument form of the index (FORM_DOMAIN) through every forward map: complete early blocks
+    (so that injectivity / surjectivity are decided per form as well), then isolated large indices up to the limit of the
+    container; the inverse is called with the image in the same form.  A failure is keyed `C11/<fn>/form:idx=<class>/<clause>`
+    with the class of the form (unsigned / 0d-array / numpy-int / mixed), so one defect gives one key."""
+    rng = ctx.rng('c11-forms')
+    top_blocks = ctx.pick(2600, 40000)          # blocks whose last index is below this are swept completely in every form
+    k = -1
+    for name, T in tables.items():
+        fn = T['fn']
+        b = -1
+        while True:
+            b += 1
+            lo, hi = T['block'](b)
+            if hi > top_blocks:
+                break
+            for flabel in FORM_DOMAIN[name]:
+                k += 1
+                if not ctx.mine(k):
+                    continue
+                # quick: every form on the first 12 blocks, afterwards each block in two rotating forms
+                if ctx.quick and b >= 12 and (FORM_DOMAIN[name].index(flabel) - b) % 5 not in (0, 2):
+                    continue
+                mkj, mknm, fcls, _ = FORMS[flabel]
+                fkey = f'form:idx={fcls}/'
+                desc = {'wl': 'index-forms', 'map': name, 'block': b, 'j': [lo, hi], 'type': flabel, 'class': f'forms:{name}:{flabel}'}
+                ctx.case(desc)
+                ctx.evaluations += hi - lo
+                seen, prev, clean = {}, None, True
+                for j in range(lo, hi + 1):
+                    ctx.observe('forms.forward')
+                    im = _eval(ctx, name, T, j, mkj(j), '', desc, form=fkey)
+                    if im is None:
+                        clean, prev = False, None
+                        continue
+                    ok = _check_index(ctx, name, T, j, mkj(j), im, prev, b, '', desc, int, form=fkey, mk_nm=mknm)
+                    clean = clean and ok
+                    if im in seen:
+                        clean = False
+                        ctx.violation(f'C11/{fn}/{fkey}duplicate-image', f'{fn} is not one-to-one: two indices have the same image', desc,
+                                      j=j, other=seen[im], image=list(im))
+                    else:
+                        seen[im] = j
+                    prev = im
+                missing = T['target'](b) - set(seen)
+                if missing and clean:
+                    ctx.violation(f'C11/{fn}/{fkey}not-surjective', f'{fn}: a valid order of a completed block is never produced', desc,
+                                  missing=sorted(missing)[:4])
+    for name in tables:
+        if 'uint64' not in FORM_DOMAIN[name] and ctx.shard == 0:
+            ctx.skip(FORM_NOLL_UNSIGNED, 4)
+    # isolated large indices in every form (32-bit containers: while the library's own arithmetic fits)
+    nprobe = ctx.share(ctx.pick(1600, 60000))
+    names = list(tables)
+    for i in range(nprobe):
+        name = names[i % 4]
+        T = tables[name]
+        dom = FORM_DOMAIN[name]
+        flabel = dom[(i // 4) % len(dom)]
+        mkj, mknm, fcls, narrow = FORMS[flabel]
+        top = FORM_LIMIT_32 if narrow else 2 ** 31 - 1
+        if name in ('noll', 'xy'):
+            top = min(top, 3_000_000)           # O(sqrt j) python loops per call
+        fam = ['block-edge', 'square', 'pow2', 'random'][int(rng.integers(4))]
+        if fam == 'block-edge':
+            kk = int(np.exp(rng.uniform(np.log(30), np.log(np.sqrt(2.0 * top)))))
+            j0 = kk * (kk + 1) // 2
+        elif fam == 'square':
+            kk = int(np.exp(rng.uniform(np.log(30), np.log(np.sqrt(1.0 * top)))))
+            j0 = kk * kk
+        elif fam == 'pow2':
+            j0 = 2 ** int(rng.integers(8, int(np.log2(top)) + 1))
+        else:
+            j0 = int(np.exp(rng.uniform(np.log(2000), np.log(top))))
+        j0 = max(3, min(j0, top - 3))
+        desc = {'wl': 'index-forms-probe', 'map': name, 'j': j0, 'family': fam, 'type': flabel, 'class': f'forms-probe:{name}:{flabel}'}
+        ctx.case(desc)
+        fkey = f'form:idx={fcls}/'
+        for j in (j0 - 1, j0, j0 + 1, j0 + 2):
+            ctx.observe('forms.probe')
+            im = _eval(ctx, name, T, j, mkj(j), '/probe', desc, form=fkey)
+            if im is None:
+                continue
+            _check_index(ctx, name, T, j, mkj(j), im, None, T['blk_of'](T['ref'](j)), '/probe', desc, int, form=fkey, mk_nm=mknm)
+    _merge_suffix(ctx, '/probe', only_forms=True)
+    ctx.note('index_forms', {'forms': {n_: FORM_DOMAIN[n_] for n_ in tables}, 'complete_blocks_up_to_index': top_blocks, 'probes': nprobe,
+                             'out_of_domain': FORM_NOLL_UNSIGNED})
+
+
+def _merge_suffix(ctx, sfx, only_forms=False):
     """A key `k + sfx` whose plain form `k` was also observed in this process is the same defect (it does not depend on
     the configuration): fold it into the plain key."""
-    for k in [k for k in ctx.violations if sfx in k]:
+    for k in [k for k in ctx.violations if sfx in k and (not only_forms or '/form:' in k)]:
         plain = k.replace(sfx, '', 1)
         if plain in ctx.violations:
             v = ctx.violations.pop(k)
@@ -502,6 +725,20 @@ def _merge_suffix(ctx, sfx):
 
 
 FWD_FIRST = {'noll': 1, 'ansi': 0, 'fringe': 1, 'xy': 1}
+
+
+def _form_history_key(ctx, fname, fc, tail):
+    """Key of a failure inside an interleaved sequence.  Canonical index forms: keyed by the call made immediately before.  A
+    non-canonical form (class E): the key of the form sweep when that already fired in this process for the same function
+    and form class (it is then not a history effect), else one key per function and form class."""
+    if not fc:
+        return f'C11/{fname}/call-order/interleaved/{tail}'
+    arg = 'nm' if fname.startswith('nm_to') else 'idx'
+    pre = f'C11/{fname}/form:{arg}={fc}/'
+    for k in ctx.violations:
+        if k.startswith(pre) and '/call-order/' not in k:
+            return k
+    return pre + 'call-order/interleaved'
 
 
 def interleaved(ctx, tables, P):
@@ -514,7 +751,7 @@ def interleaved(ctx, tables, P):
     nseq = ctx.pick(48, 1600)
     length = ctx.pick(400, 1500)
     kinds = ['same-index-all-maps', 'roundtrip-between-forwards', 'boundary-hops-alternating', 'random-mix', 'precision-switch',
-             'descending-alternating', 'same-object-reused', 'big-then-small']
+             'descending-alternating', 'same-object-reused', 'big-then-small', 'index-forms-mixed']
     for q in range(nseq):
         if not ctx.mine(q):
             continue
@@ -577,6 +814,20 @@ def interleaved(ctx, tables, P):
                 obj = np.int64(int(g.integers(1, top)))          # ONE numpy index object through every map, twice
                 for nm in names + names[::-1]:
                     ops.append((nm, (obj,), 64))
+        elif kind == 'index-forms-mixed':
+            # class E x B: every call hands its index / (n, m) pair over in another in-domain form
+            fl_all = list(FORMS)
+            for _ in range(length):
+                if g.random() < 0.2:
+                    n = int(g.integers(0, 400))
+                    m = (int(g.integers(0, n // 2 + 1)) * 2 + n % 2) * (1 if g.random() < 0.5 else -1)
+                    if abs(m) > n:
+                        m = n
+                    ops.append((['nm_to_fringe', 'nm_to_ansi_j'][int(g.integers(2))], FORMS[fl_all[int(g.integers(len(fl_all)))]][1](n, m), 64))
+                else:
+                    nm = names[int(g.integers(4))]
+                    dom = FORM_DOMAIN[nm]
+                    ops.append((nm, (FORMS[dom[int(g.integers(len(dom)))]][0](int(g.integers(FWD_FIRST[nm], top))),), 64))
         else:  # big-then-small: a large index (tables / memos grow), then small ones in every map
             for _ in range(length // 9):
                 big = int(g.integers(top, 40 * top + 2))
@@ -608,14 +859,16 @@ def interleaved(ctx, tables, P):
                     res = f(*args)
                     got = _as_int(res) if fnl in inverses else (_as_int(res[0]), _as_int(res[1]))
                 except Exception as e:
-                    ctx.violation(f'C11/{fname}/call-order/interleaved/raises:{type(e).__name__}', f'{fname} raises inside an interleaved sequence of '
-                                  'index-map calls', desc, args=[int(a) for a in args], previous_call=prev)
+                    fc = next((c for c in (form_class(a) for a in args) if c), '')
+                    ctx.violation(_form_history_key(ctx, fname, fc, f'raises:{type(e).__name__}'), f'{fname} raises inside an interleaved sequence of '
+                                  'index-map calls', desc, args=[int(a) for a in args], types=[_tname(a) for a in args], previous_call=prev)
                     prev = [fname, [int(a) for a in args]]
                     continue
             if got != want and not _INVALID[0]:
                 after = prev[0] if prev else 'nothing'
                 sw = '/precision-switched' if prec != cur_prec else ''
-                ctx.violation(f'C11/{fname}/call-order/interleaved/after-{after}{sw}', f'{fname} returns a wrong order / index inside an interleaved '
+                fc = next((c for c in (form_class(a) for a in args) if c), '')
+                ctx.violation(_form_history_key(ctx, fname, fc, f'after-{after}{sw}'), f'{fname} returns a wrong order / index inside an interleaved '
                               f'sequence (immediately after {after})', desc, args=[int(a) for a in args], previous_call=prev,
                               got=list(got) if isinstance(got, tuple) else got, want=list(want) if isinstance(want, tuple) else want,
                               precision=prec)
